@@ -5,6 +5,7 @@ from pyvc.vals import Val
 from pyvc import ops
 from .base import *
 from .jsonrpc_msg import jcd, jcl, eff_classes
+from .base import resub, charclass_regex
 import jsonrpclib.jsonclass as JC
 import jsonrpclib.config as _cfgmod
 
@@ -135,15 +136,98 @@ Contract(
 )
 
 
+def valid_name(s_):
+    """C08: non-empty and made only of ASCII letters, digits, underscore and dot"""
+    ok = z3.Union(z3.Range("a", "z"), z3.Range("A", "Z"), z3.Range("0", "9"), z3.Re("_"), z3.Re("."))
+    return z3.And(z3.Length(s_) > 0, z3.InRe(s_, z3.Star(ok)))
+
+
+def _desc(c):
+    return get(c.a.obj, "__jsonclass__")
+
+
+def _desc_name(c):
+    return z3.Select(Val.lat(_desc(c)), 0)
+
+
+def _is_descriptor(c):
+    return z3.And(V.is_dict(c.a.obj), has(c.a.obj, "__jsonclass__"))
+
+
+def _wellformed_desc(c):
+    d = _desc(c)
+    return z3.And(V.is_list(d), Val.llen(d) >= 2, V.is_str(_desc_name(c)))
+
+
+def _nothing_loaded(c):
+    return z3.And(c.gnew("imports") == c.gold("imports"), c.gnew("constructs") == c.gold("constructs"),
+                  c.gnew("xlate_log") == c.gold("xlate_log"))
+
+
+def _lenv(c):
+    return eff_classes(c.a.classes)
+
+
+def _load_seq_clause(c):
+    o, r = c.a.obj, c.ret
+    return implies(z3.And(V.is_seq(o), c.returns),
+                   z3.And(V.is_list(r), Val.llen(r) == V.seq_len(o),
+                          z3.Implies(z3.And(FJ >= 0, FJ < Val.llen(r)),
+                                     z3.Select(Val.lat(r), FJ) == jcl(_lenv(c), z3.Select(V.seq_at(o), FJ)))))
+
+
+def _load_dict_clause(c):
+    o, r = c.a.obj, c.ret
+    return implies(z3.And(V.is_dict(o), z3.Not(has(o, "__jsonclass__")), c.returns),
+                   z3.And(V.is_dict(r), Val.dlen(r) == Val.dlen(o), Val.dhas(r) == Val.dhas(o),
+                          z3.Implies(V.dict_has(o, FK),
+                                     z3.Select(Val.dget(r), FK) == jcl(_lenv(c), z3.Select(Val.dget(o), FK)))))
+
+
 Contract(
     "jsonrpclib.jsonclass.load",
     kinds={},
-    requires=[],
+    requires=[("classes", lambda c: z3.Or(V.is_none(c.a.classes), V.is_dict(c.a.classes)))],
     ensures=[
-        ("image", lambda c: implies(c.returns, c.ret == jcl(eff_classes(c.a.classes), c.a.obj)),
-         ("C15", "C07")),
+        # trusted determinism: jc_load names the value load returns for (class table, object)
+        ("image", lambda c: implies(c.returns, c.ret == jcl(_lenv(c), c.a.obj)), ("assumed",)),
         ("raises_exceptions_only", lambda c: implies(c.raised, c.raises(Exception)), ("C08", "C02")),
+        ("primitive_identity", lambda c: implies(V.is_primitive(c.a.obj),
+                                                 z3.And(c.returns, c.ret == c.a.obj, _nothing_loaded(c))), ("C15",)),
+        ("sequence_elementwise", _load_seq_clause, ("C15", "C07")),
+        ("dict_valuewise", _load_dict_clause, ("C15", "C07")),
+        # C08, regular-expression free part: whatever is imported or constructed, the name that was handed to the
+        # character filter came back unchanged and non-empty; a well-formed descriptor whose name fails that test
+        # is rejected with TranslationError.  That "unchanged by the filter" means "only [A-Za-z0-9_.]" is the
+        # lemma below, proved once from the real INVALID_MODULE_CHARS constant.
+        ("nothing_loaded_unless_name_passed_the_filter", lambda c: implies(
+            z3.And(z3.Not(_nothing_loaded(c)), _is_descriptor(c), V.is_list(_desc(c))),
+            z3.And(V.is_str(_desc_name(c)), z3.Length(Val.s(_desc_name(c))) > 0,
+                   resub(Val.s(_desc_name(c))) == Val.s(_desc_name(c)))), ("C08",)),
+        ("plain_values_load_nothing_themselves", lambda c: implies(
+            z3.And(z3.Not(_is_descriptor(c)), V.is_primitive(c.a.obj)), _nothing_loaded(c)), ("C08",)),
+        ("filtered_or_empty_name_is_a_translation_error", lambda c: implies(
+            z3.And(_is_descriptor(c), _wellformed_desc(c),
+                   z3.Or(z3.Length(Val.s(_desc_name(c))) == 0, resub(Val.s(_desc_name(c))) != Val.s(_desc_name(c)))),
+            z3.And(c.raises_exactly(JC.TranslationError), _nothing_loaded(c))), ("C08",)),
+        ("argument_unchanged", lambda c: c.after("obj") == c.a.obj, ("C15",)),
     ],
-    modifies=[Ghost("imports"), Ghost("constructs"), Ghost("xlate_log"), Param("obj")],
+    modifies=[Ghost("imports"), Ghost("constructs"), Ghost("xlate_log"), Ghost("x_kind"), Ghost("x_val"),
+              Ghost("checked_name")],
     props=("C15", "C07", "C08"),
 )
+
+
+def _name_filter_lemma():
+    """for every string s: if the filter built from the real INVALID_MODULE_CHARS leaves s unchanged then s consists
+    only of ASCII letters, digits, underscore and dot (and conversely)"""
+    s_ = z3.String("lemma_s")
+    cls = charclass_regex(JC.INVALID_MODULE_CHARS)
+    anyc = z3.Star(z3.AllChar(z3.ReSort(z3.StringSort())))
+    has_bad = z3.InRe(s_, z3.Concat(anyc, cls, anyc))
+    ok = z3.Union(z3.Range("a", "z"), z3.Range("A", "Z"), z3.Range("0", "9"), z3.Re("_"), z3.Re("."))
+    return [], z3.Not(has_bad) == z3.InRe(s_, z3.Star(ok))
+
+
+REGISTRY_JC["jsonrpclib.jsonclass.load"].lemmas = [("name_filter_alphabet", _name_filter_lemma, ("C08",))]
+
